@@ -35,6 +35,8 @@ type Loaded struct {
 	tags      map[string]int
 	tagTypes  []types.Type
 	funcIndex map[string]*ssa.Function // fnKey -> function (incl. closures)
+	// element types T for which a pointer to a slice element escapes (is stored, returned, merged ...)
+	elemPtrTypes map[string]bool
 }
 
 func loadRepo(repo string, patterns []string) (*Loaded, error) {
@@ -102,9 +104,37 @@ func loadRepo(repo string, patterns []string) (*Loaded, error) {
 		}
 	}
 	// function index
+	ld.elemPtrTypes = map[string]bool{}
 	for fn := range ssautil.AllFunctions(prog) {
 		if inRepo(fn) {
 			ld.funcIndex[fnKey(fn)] = fn
+			for _, b := range fn.Blocks {
+				for _, ins := range b.Instrs {
+					ia, ok := ins.(*ssa.IndexAddr)
+					if !ok {
+						continue
+					}
+					if _, isSlice := ia.X.Type().Underlying().(*types.Slice); !isSlice {
+						continue
+					}
+					for _, ref := range *ia.Referrers() {
+						escapes := false
+						switch r := ref.(type) {
+						case *ssa.Store:
+							escapes = r.Val == ia
+						case *ssa.UnOp, *ssa.FieldAddr, *ssa.IndexAddr, *ssa.DebugRef:
+						case *ssa.Call:
+							// passing to a callee is fine when it is inlined with the location; method calls on the element too
+						default:
+							escapes = true
+						}
+						if escapes {
+							et := ia.Type().Underlying().(*types.Pointer).Elem()
+							ld.elemPtrTypes[typeKey(types.Unalias(et))] = true
+						}
+					}
+				}
+			}
 		}
 	}
 	return ld, nil
